@@ -50,7 +50,7 @@ one_write(uint32_t addr, uint32_t n, const unsigned char *words, const char *pat
     /* unmapped / read-only: first address each */
     int seen_unmapped = 0, seen_ro = 0;
     /* the whole table spans far less than 200 words: whatever a longer request adds is unmapped */
-    for (uint32_t k = 0; k < n && k < 200; k++) {
+    for (uint32_t k = 0; k < n && k < 200 && (uint64_t)addr + k <= 0xffffffffull; k++) {
         int ai = rt_area_of(d, addr + k);
         if (ai < 0) {
             if (!seen_unmapped) {
@@ -69,7 +69,7 @@ one_write(uint32_t addr, uint32_t n, const unsigned char *words, const char *pat
     for (int i = 0; i < d->nregs && n > 0; i++) {
         const struct rt_reg *r = &d->reg[i];
         uint32_t rsz = rt_tsize[r->type];
-        if (r->addr + rsz <= addr || addr + n <= r->addr)
+        if ((uint64_t)r->addr + rsz <= addr || (uint64_t)addr + n <= r->addr)
             continue;
         overl[nover++] = i;
         if (firstbad)
@@ -78,7 +78,7 @@ one_write(uint32_t addr, uint32_t n, const unsigned char *words, const char *pat
         memcpy(tmp, rt_model_word(&inst, r->addr), 2 * rsz);
         for (uint32_t w = 0; w < rsz; w++) {
             uint32_t a = r->addr + w;
-            if (a >= addr && a < addr + n)
+            if (a >= addr && a < (uint64_t)addr + n)
                 memcpy(tmp + 2 * w, words + 2 * (a - addr), 2);
         }
         uint64_t bits = rt_decode(r->type, d->bigendian, tmp);
@@ -93,21 +93,27 @@ one_write(uint32_t addr, uint32_t n, const unsigned char *words, const char *pat
     }
     static RegisterAtom *bigbuf;
     RegisterAtom *buf;
+    /* octets of the caller's buffer that exist: all of it, except for requests so long that they cannot be
+     * backed by memory - those get an exact-size arena block of 256 words and must be refused (the table is
+     * far shorter) without the library reading further */
+    const size_t bn = n > 0x100000u ? 256 : n;
     if (n < 64) {
         buf = bufs[n];
+    } else if (n > 0x100000u) {
+        buf = vh_arena(2 * bn);
     } else {
         /* long requests: an ordinary heap buffer of exactly n words */
         free(bigbuf);
         bigbuf = malloc(2 * (size_t)n);
         buf = bigbuf;
     }
-    memcpy(buf, words, 2 * (size_t)n);
+    memcpy(buf, words, 2 * bn);
     RegisterAccess a = register_block_write(&inst.t, addr, n, buf);
     nwrites++;
     char key[96], ctx[200];
     snprintf(ctx, sizeof ctx, "table{%.90s} write(addr=%u,n=%u,pattern=%s) words=%s", rt_describe(d), addr, n, pat,
-             vh_hex(words, 2 * (size_t)n > 24 ? 24 : 2 * (size_t)n));
-    if (memcmp(buf, words, 2 * (size_t)n) != 0)
+             vh_hex(words, 2 * bn > 24 ? 24 : 2 * bn));
+    if (memcmp(buf, words, 2 * bn) != 0)
         vh_fail("caller-buffer-modified", "part=buffer", "%s", ctx);
     if (napp == 0) {
         VH_COUNT("outcome: success");
@@ -280,6 +286,43 @@ u_table(uint64_t idx, void *arg)
                 VH_COUNT("block write much longer than the table");
             }
     }
+    /* lengths that cannot be backed by memory, among them those for which address + length passes 2^32: the
+     * first unmapped address at or above the start decides (skipped when the table is mapped all the way up
+     * to the top of the address space from there, where the statement says nothing) */
+    {
+        static unsigned char *hw;
+        if (!hw)
+            hw = calloc(256, 2);
+        for (int k = 0; k < 3; k++) {
+            uint32_t addr = k == 0 ? lo : k == 1 ? (a0 + (uint32_t)vh_below(&rg, hi - a0 + 1)) : (d.nregs ? d.reg[d.nregs - 1].addr : lo);
+            int hole = 0;
+            for (uint32_t w = 0; w < 200 && (uint64_t)addr + w <= 0xffffffffull; w++)
+                if (rt_area_of(&d, addr + w) < 0)
+                    hole = 1;
+            if (!hole)
+                continue;
+            const uint32_t hugen[] = { 0x100001u, 0x7fffffffu, 0x80000000u, 0xfffffff0u, 0xffffffffu,
+                                       (uint32_t)(0u - addr), (uint32_t)(0u - addr) + 1u, (uint32_t)(0u - addr) - 1u,
+                                       (uint32_t)(0u - addr) + 0x10000u };
+            for (size_t li = 0; li < sizeof hugen / sizeof hugen[0]; li++) {
+                if (hugen[li] <= 0x100000u)
+                    continue;
+                for (uint32_t w = 0; w < 256; w++) {
+                    unsigned char *mw = (uint64_t)addr + w <= 0xffffffffull ? rt_model_word(&inst, addr + w) : NULL;
+                    if (mw)
+                        memcpy(hw + 2 * w, mw, 2);
+                    else
+                        memset(hw + 2 * w, 0, 2);
+                }
+                VH_CASE4(idx, addr, hugen[li], 10);
+                one_write(addr, hugen[li], hw, "huge-request");
+                if ((uint64_t)addr + hugen[li] > 0xffffffffull)
+                    VH_COUNT("block write whose address + length passes 2^32");
+                else
+                    VH_COUNT("block write longer than any buffer");
+            }
+        }
+    }
     vh_sig(0x02000000ull ^ idx);
     vh_countf("tables with %d areas", d.nareas);
     if (idx < 3)
@@ -303,7 +346,8 @@ harness_run(void)
                                  "failing register overlap: head invalid", "failing register overlap: tail invalid",
                                  "failing register overlap: interior invalid",
                                  "tables with 1 areas", "tables with 2 areas", "tables with 3 areas",
-                                 "block write much longer than the table" };
+                                 "block write much longer than the table",
+                                 "block write whose address + length passes 2^32" };
     for (size_t i = 0; i < sizeof req / sizeof req[0]; i++)
         vh_require(req[i]);
 }
